@@ -42,7 +42,6 @@ extern "C" {
 void out_res(uint64_t step, uint64_t op, uint64_t k, uint64_t ok, uint64_t val, uint64_t cnt, uint64_t n, uint64_t size);
 void out_hdr(uint64_t n, int64_t ttl, int64_t tick);
 void out_ent(uint64_t i, uint64_t k, uint64_t v, int64_t d, uint64_t cnt, int64_t age, uint64_t o2);
-void __vf_next_draw(uint64_t r);
 }
 #endif
 #include "clauses.hpp"
@@ -79,21 +78,14 @@ extern "C" int diff_main(uint64_t seed)
             ev.ttl = (int64_t)(rnd() % 7);
             uint64_t draw = rnd();
 #if T_POLICY == P_RR
+            // rr: the differential does not consume random draws (how a draw maps to a victim is the library's business and
+            // is checked symbolically): an insert that would evict is turned into an erase of the same key
+            if (ev.op == OP_INSERT && c.size() >= HCAP)
             {
-                size_t n = c.size();
-                if (n > 0)
-                {
-#ifdef VF_REAL
-                    for (unsigned sd = 1; sd < 100000; ++sd)
-                    {
-                        std::mt19937                          g(sd);
-                        std::uniform_int_distribution<size_t> d{0, n - 1};
-                        if (d(g) == (size_t)(draw % n)) { c.m_mt.seed(sd); break; }
-                    }
-#else
-                    __vf_next_draw(draw % n);
-#endif
-                }
+                Res probe;
+                x_find(c, ev.k, false, probe);
+                if (!probe.ok)
+                    ev.op = OP_ERASE;
             }
 #endif
             (void)draw;
